@@ -146,3 +146,48 @@ let () =
         [String.concat "," cls; hex_of_bstr r.rr_file; n_s r.rr_line; "#" ^ string_of_int (int_of_nat r.rr_unbound);
          "#" ^ string_of_int (List.length r.rr_shared_writes)] @ List.map hex_of_bstr r.rr_writes
     | _ -> failwith "render_x")
+
+(* ---- user functions and directives: the behaviours installed by the harness (c06InstallUserCode) ---- *)
+let () =
+  let bs = bstr_of_string in
+  let ufuncs (name : n list) : user_func option =
+    if name = bs "userPanic" then Some { uf_arities = [n_of_int 0; n_of_int 1]; uf_apply = (fun _ -> UPanic (bs "boom")) }
+    else if name = bs "userRuntime" then Some { uf_arities = [n_of_int 0]; uf_apply = (fun _ -> UPanic (bs "assignment to entry in nil map")) }
+    else if name = bs "userNil" then Some { uf_arities = [n_of_int 0]; uf_apply = (fun _ -> UReturn None) }
+    else if name = bs "userId" then Some { uf_arities = [n_of_int 1]; uf_apply = (function [v] -> UReturn (Some v) | _ -> UPanic (bs "index out of range")) }
+    else if name = bs "userLen" then Some { uf_arities = [n_of_int 1];
+           uf_apply = (function [VList (_, l)] -> UReturn (Some (VInt (z_of_int (List.length l)))) | _ -> UPanic (bs "interface conversion")) }
+    else None in
+  let udirs (name : n list) : user_directive option =
+    if name = bs "udPanic" then Some { ud_arities = [n_of_int 0]; ud_cancel = true; ud_apply = (fun _ _ -> UPanic (bs "boom")) }
+    else if name = bs "udNil" then Some { ud_arities = [n_of_int 0]; ud_cancel = false; ud_apply = (fun _ _ -> UReturn None) }
+    else if name = bs "udId" then Some { ud_arities = [n_of_int 0]; ud_cancel = false; ud_apply = (fun v _ -> UReturn v) }
+    else if name = bs "udCount" then Some { ud_arities = [n_of_int 0]; ud_cancel = true;
+           ud_apply = (fun v _ -> match v with Some (VList (_, l)) -> UReturn (Some (VInt (z_of_int (List.length l)))) | _ -> UPanic (bs "interface conversion")) }
+    else None in
+  (* the user's entries over the extended model's *)
+  let fhooks name = (match ufuncs name with Some uf -> Some (hook_of_user uf) | None -> x_funcs name) in
+  let dtable name = (match udirs name with Some ud -> Some (dir_of_user ud) | None -> x_dirs name) in
+  (* c06_render_user: same request and answer as "render" *)
+  register "c06_render_user" (fun a ->
+    match a with
+    | key :: tname :: fuel :: cl :: bl :: oblig :: rest ->
+        let reg = Hashtbl.find Ops_interp.registries key in
+        let s = String.concat " " rest in
+        let (ijs, ds) = (match String.index_opt s ';' with
+                         | Some i -> (String.trim (String.sub s 0 i), String.trim (String.sub s (i + 1) (String.length s - i - 1)))
+                         | None -> failwith "c06_render_user: missing ;") in
+        let ij = if ijs = "none" then None else Some (value_of (Sexp.parse ijs)) in
+        let (did, dm) = (match value_of (Sexp.parse ds) with
+                         | VMap (id, m) -> (id, m)
+                         | VNull -> (N0, [])
+                         | _ -> failwith "c06_render_user: data must be a map") in
+        let ob = if oblig = "-" then [] else List.map (fun h -> bstr_of_hex h) (String.split_on_char ',' oblig) in
+        let cf = { c_reg = reg; c_ij = ij; c_oblig = ob; c_msgs = None } in
+        let r = render_hook cf fhooks dtable (nat_of_int (int_field fuel)) (xs tname) did dm (Ops_interp.opt_nat cl) (Ops_interp.opt_n bl) (n_of_int 1000000) in
+        let cls = (match r.rr_outcome with
+                   | Ok _ -> ["ok"] | Err m -> ["err"; hex_of_bstr m] | Crash m -> ["crash"; hex_of_bstr m]
+                   | Diverge -> ["diverge"] | OutOfFuel -> ["fuel"] | OutOfModel -> ["outofmodel"]) in
+        [String.concat "," cls; hex_of_bstr r.rr_file; n_s r.rr_line; "#" ^ string_of_int (int_of_nat r.rr_unbound);
+         "#" ^ string_of_int (List.length r.rr_shared_writes)] @ List.map hex_of_bstr r.rr_writes
+    | _ -> failwith "c06_render_user")
